@@ -23,6 +23,7 @@ pub mod c14;
 pub mod c15;
 pub mod c16;
 pub mod c18;
+pub mod c19;
 
 pub const SERVER_IP: IpAddr = IpAddr::V4(Ipv4Addr::new(192, 0, 2, 10));
 
@@ -44,6 +45,7 @@ pub fn all() -> Vec<Box<dyn Prop>> { vec![
         Box::new(c15::C15),
         Box::new(c16::C16),
         Box::new(c18::C18),
+        Box::new(c19::C19),
     ] }
 
 pub fn find(id: &str) -> Option<Box<dyn Prop>> { all().into_iter().find(|p| p.id() == id) }
